@@ -20,13 +20,14 @@ import (
 // C12Case: a workload grammar, an input for it, and the lengths of the files that precede
 // the parsed file in the file set.
 type C12Case struct {
-	Workload string   `json:"workload"`
-	In       string   `json:"in"`
-	Pre      [][]byte `json:"pre"`
-	Post     [][]byte `json:"post,omitempty"` // files added after the parsed one
-	G        *Grammar `json:"g,omitempty"` // workload "grammar": a generated grammar
-	Toks     *C10Case `json:"toks,omitempty"` // workload "tokens": a generated C10 token sequence (In is its source)
-	Lit      *C08Case `json:"lit,omitempty"`  // workload "literal": every literal parser at every offset of Lit.Data
+	Workload    string   `json:"workload"`
+	In          string   `json:"in"`
+	Pre         [][]byte `json:"pre"`
+	Post        [][]byte `json:"post,omitempty"`        // files added after the parsed one
+	ReaderFirst bool     `json:"readerFirst,omitempty"` // the reader is created before the file is added to the set
+	G           *Grammar `json:"g,omitempty"`           // workload "grammar": a generated grammar
+	Toks        *C10Case `json:"toks,omitempty"`        // workload "tokens": a generated C10 token sequence (In is its source)
+	Lit         *C08Case `json:"lit,omitempty"`         // workload "literal": every literal parser at every offset of Lit.Data
 }
 
 func (c *C12Case) Describe() string {
@@ -137,6 +138,7 @@ func genC12(t *rapid.T) interface{} {
 	for i := 0; i < k; i++ {
 		c.Pre = append(c.Pre, genContent(t, "p", 6))
 	}
+	c.ReaderFirst = rapid.IntRange(0, 2).Draw(t, "readerFirst") == 0
 	k = rapid.IntRange(0, 5).Draw(t, "npost")
 	for i := 0; i < k; i++ {
 		c.Post = append(c.Post, genContent(t, "q", 6))
@@ -146,11 +148,11 @@ func genC12(t *rapid.T) interface{} {
 
 type c12Out struct {
 	Tree, ParseErr, Eval string
-	Calls, Nodes        int
-	Base                int
+	Calls, Nodes         int
+	Base                 int
 }
 
-func runC12(c *C12Case, pre, post [][]byte) (o c12Out, err error) {
+func runC12(c *C12Case, pre, post [][]byte, readerFirst bool) (o c12Out, err error) {
 	defer func() {
 		if r := recover(); r != nil {
 			if _, ok := r.(budgetExceeded); ok {
@@ -168,6 +170,16 @@ func runC12(c *C12Case, pre, post [][]byte) (o c12Out, err error) {
 		content = c.Lit.Data
 	}
 	f := text.NewFile("main", content)
+	var early *text.Reader
+	if readerFirst {
+		early = text.NewReader(f) // e.g. examples/json benchmarks create the reader first
+	}
+	newReader := func() *text.Reader {
+		if early != nil {
+			return early
+		}
+		return text.NewReader(f)
+	}
 	fl = append(fl, f)
 	for i, p := range post {
 		fl = append(fl, text.NewFile(fmt.Sprintf("post%d", i), p))
@@ -181,7 +193,7 @@ func runC12(c *C12Case, pre, post [][]byte) (o c12Out, err error) {
 		var sb strings.Builder
 		for _, e := range c08Parsers(c.Lit) {
 			for off := 0; off <= f.Len(); off++ {
-				ctx := parsley.NewContext(fs, text.NewReader(f))
+				ctx := parsley.NewContext(fs, newReader())
 				n, _, perr := e.p.Parse(ctx, data.EmptyIntMap, f.Pos(off))
 				fmt.Fprintf(&sb, "%s@%d: %s", e.name, off, renderRel(n, o.Base))
 				if perr != nil {
@@ -207,7 +219,7 @@ func runC12(c *C12Case, pre, post [][]byte) (o c12Out, err error) {
 	} else {
 		p = c12Workloads[c.Workload]
 	}
-	ctx := parsley.NewContext(fs, text.NewReader(f))
+	ctx := parsley.NewContext(fs, newReader())
 	node, perr := parsley.Parse(ctx, p)
 	o.Tree = renderRel(node, o.Base)
 	o.ParseErr = fmt.Sprint(perr)
@@ -221,12 +233,12 @@ func runC12(c *C12Case, pre, post [][]byte) (o c12Out, err error) {
 	}
 	if c.Workload == "grammar" {
 		// raw results of the start rule (all alternatives) must shift as well
-		ctx3 := parsley.NewContext(fs, text.NewReader(f))
+		ctx3 := parsley.NewContext(fs, newReader())
 		b := Build(c.G, BuildOpts{Probe: probe})
 		n3, _, _ := b.NT[0].Parse(ctx3, data.EmptyIntMap, f.Pos(0))
 		o.Tree += " all=" + RenderResult(n3, o.Base)
 	}
-	ctx2 := parsley.NewContext(fs, text.NewReader(f))
+	ctx2 := parsley.NewContext(fs, newReader())
 	v, eerr := parsley.Evaluate(ctx2, p)
 	o.Eval = fmt.Sprintf("%#v / %v", v, eerr)
 	return o, nil
@@ -251,11 +263,11 @@ func checkC12(ci interface{}, st *Stats) error {
 	} else if c12Workloads[c.Workload] == nil {
 		return Discard{"unknown workload"}
 	}
-	alone, err := runC12(c, nil, nil)
+	alone, err := runC12(c, nil, nil, false)
 	if err != nil {
 		return err
 	}
-	placed, err := runC12(c, c.Pre, c.Post)
+	placed, err := runC12(c, c.Pre, c.Post, c.ReaderFirst)
 	if err != nil {
 		return err
 	}
@@ -279,6 +291,9 @@ func checkC12(ci interface{}, st *Stats) error {
 		st.Class("call count differs with placement (recorded, not a violation)")
 	}
 	st.Class("workload " + c.Workload)
+	if c.ReaderFirst {
+		st.Class("reader created before the file was placed")
+	}
 	if strings.HasPrefix(alone.ParseErr, "<nil>") {
 		st.Class("parsed")
 	} else {
